@@ -3,7 +3,10 @@
 SEED="$1"; PROP="$2"; TIER="${3:-quick}"
 cd /verif
 git -C /repo apply "$(realpath $SEED)/patch.diff" || { echo "apply failed"; exit 2; }
+# the evidence file describes the unchanged tree: keep it aside while the seeded tree is checked
+[ -f "evidence/$PROP.json" ] && cp "evidence/$PROP.json" "/tmp/evidence_$PROP.keep"
 python3 bin/check "$PROP" --tier "$TIER" > "/tmp/seedrun_$(basename $SEED)_$PROP.out" 2>&1
 RC=$?
 git -C /repo checkout -- .
+[ -f "/tmp/evidence_$PROP.keep" ] && mv "/tmp/evidence_$PROP.keep" "evidence/$PROP.json"
 echo "$(basename $SEED) on $PROP: rc=$RC $(grep -c '^VIOLATION' /tmp/seedrun_$(basename $SEED)_$PROP.out) violation lines; first: $(grep '^VIOLATION' /tmp/seedrun_$(basename $SEED)_$PROP.out | head -1)"
